@@ -133,6 +133,12 @@ func mkTxs(h uint64, tag uint64, n int) ([]*pb.BxhTransaction, []pb.Transaction,
 			From: uniAddrs[i%len(uniAddrs)], To: uniAddrs[(i+1)%len(uniAddrs)],
 			Nonce: h*100 + uint64(i), Timestamp: int64(tag%1000000) + int64(i), Payload: []byte(fmt.Sprintf("p-%d-%d-%d", h, tag, i)),
 		}
+		if i == 1 && (tag>>20)&7 == 0 {
+			// a second copy of the previous transaction (same hash): lookups by that hash are ambiguous, those of
+			// the other transactions of the block are not
+			c := *txs[0]
+			tx = &c
+		}
 		tx.TransactionHash = tx.Hash()
 		txs = append(txs, tx)
 		ptx = append(ptx, tx)
@@ -242,6 +248,10 @@ func checkChain(res *sim.Result, prop string, step int, n *node, chain []*mBlock
 			res.Violate(prop, "get-block", step, "tx-count", "block %d has %d txs, executed %d", b.h, len(blk.Transactions.Transactions), len(b.txs))
 			continue
 		}
+		positions := map[string][]int{} // a hash may occur more than once in a block
+		for i, tx := range b.txs {
+			positions[tx.TransactionHash.String()] = append(positions[tx.TransactionHash.String()], i)
+		}
 		for i, tx := range b.txs {
 			if blk.Transactions.Transactions[i].GetHash().String() != tx.TransactionHash.String() {
 				res.Violate(prop, "get-block", step, "tx-order", "block %d tx %d hash differs", b.h, i)
@@ -250,13 +260,29 @@ func checkChain(res *sim.Result, prop string, step int, n *node, chain []*mBlock
 			if err != nil || got.GetHash().String() != tx.TransactionHash.String() || !bytes.Equal(got.GetPayload(), tx.Payload) {
 				res.Violate(prop, "get-transaction", step, "", "GetTransaction(tx %d of block %d): %v", i, b.h, err)
 			}
+			pos := positions[tx.TransactionHash.String()]
 			tm, err := lg.GetTransactionMeta(tx.TransactionHash)
-			if err != nil || tm.BlockHeight != b.h || tm.Index != uint64(i) || !bytes.Equal(tm.BlockHash, b.hash.Bytes()) {
-				res.Violate(prop, "tx-meta", step, "", "GetTransactionMeta(tx %d of block %d) = %+v, %v", i, b.h, tm, err)
+			okPos := false
+			for _, p := range pos {
+				if err == nil && tm.Index == uint64(p) {
+					okPos = true
+				}
+			}
+			if err != nil || tm.BlockHeight != b.h || !okPos || !bytes.Equal(tm.BlockHash, b.hash.Bytes()) {
+				res.Violate(prop, "tx-meta", step, "", "GetTransactionMeta(tx %d of block %d) = %+v, %v (positions of that hash in the block: %v)", i, b.h, tm, err, pos)
 			}
 			rc, err := lg.GetReceipt(tx.TransactionHash)
-			if err != nil || rc.Status != b.receipts[i].Status || !bytes.Equal(rc.Ret, b.receipts[i].Ret) || rc.TxHash.String() != tx.TransactionHash.String() {
+			okRc := false
+			for _, p := range pos {
+				if err == nil && rc.Status == b.receipts[p].Status && bytes.Equal(rc.Ret, b.receipts[p].Ret) {
+					okRc = true
+				}
+			}
+			if err != nil || !okRc || rc.TxHash.String() != tx.TransactionHash.String() {
 				res.Violate(prop, "get-receipt", step, "", "GetReceipt(tx %d of block %d) = %+v, %v", i, b.h, rc, err)
+			}
+			if len(pos) > 1 {
+				res.Count("probe_lookup_of_hash_occurring_twice_in_block")
 			}
 		}
 		im, err := lg.GetInterchainMeta(b.h)
